@@ -82,8 +82,21 @@ def run_case(case):
     seed, index, flags_off = case["seed"], case["index"], case.get("flags_off", [])
     prng = random.Random("%s:C02p:%s" % (seed, index))
     prof = C.base_profile(prng, flags_off, hostile=prng.random() < 0.5)
+    focus = prng.random() < 0.25 and not case.get("ops")
+    if focus:
+        # a quarter of the cases concentrate on one file: every rewritten commit and the upstream change meet in the same file,
+        # with edit positions biased to its first and last lines
+        prof["files"] = 1
     sc = Hist("C02", seed, index, prof)
     ops_pool = case.get("ops") or [o for o in ALL_OPS if ("op_" + o) not in flags_off]
+    if focus:
+        ops_pool = ["rebase", "rebase", "cherry", "squash", "amend", "reset", "stash"]
+    edge = focus and prng.random() < 0.6
+    if edge:
+        # same-file rebases / cherry-picks of several commits with single-line edits at the very first / last line of the file
+        sc.profile["edge_bias"] = True
+        ops_pool = ["rebase", "rebase", "cherry"]
+        sc.profile["upstream_where"] = "same"
     try:
         rng = sc.rng
         C.setup_repo(sc, 3, 14)
